@@ -58,6 +58,12 @@ func (c *c06Case) names() []string {
 			out[k] = fmt.Sprintf("%s__%c", c06OpNames[c.Op], c06Sfx[k])
 		case "cast":
 			out[k] = fmt.Sprintf("C_Cast__%c", c06Sfx[k])
+		case "optable":
+			if k%2 == 0 {
+				out[k] = fmt.Sprintf("OpF%d", k) // a package-level function taking the left operand first
+			} else {
+				out[k] = fmt.Sprintf("OpM%d", k) // a method of T
+			}
 		case "table":
 			if k%2 == 0 {
 				out[k] = fmt.Sprintf("Gx%d", k) // explicit name in the XGoo_ table
@@ -98,6 +104,16 @@ func (c *c06Case) pkgSrc() string {
 	for k := range c.Params {
 		fmt.Fprintf(&b, "type R%d struct{ r%d int }\n", k, k)
 	}
+	if c.Kind == "optable" {
+		var slots []string
+		for k, n := range names {
+			if k%2 == 1 {
+				n = "." + n
+			}
+			slots = append(slots, n)
+		}
+		fmt.Fprintf(&b, "const XGoo_T_%s = %q\n", c06OpNames[c.Op], strings.Join(slots, ","))
+	}
 	if c.Kind == "table" {
 		var slots []string
 		for k, n := range names {
@@ -122,6 +138,15 @@ func (c *c06Case) pkgSrc() string {
 		tp := ""
 		if recv == "" {
 			tp = c.TParam[k]
+		}
+		if c.Kind == "optable" {
+			// an operator family listed in an XGoo_ constant that mixes functions and methods
+			if k%2 == 0 {
+				fmt.Fprintf(&b, "func %s(a T, %s) R%d { return R%d{} }\n", names[k], strings.Join(ps, ", "), k, k)
+			} else {
+				fmt.Fprintf(&b, "func (t T) %s(%s) R%d { return R%d{} }\n", names[k], strings.Join(ps, ", "), k, k)
+			}
+			continue
 		}
 		if c.Kind == "cast" {
 			// overloaded type cast of the named type C: every candidate returns C
@@ -168,11 +193,14 @@ func (c *c06Case) callSrc(callee string) string {
 	case "iface":
 		pre += "var vif ovl.I\n\n"
 		recv = "vif." + callee
-	case "op":
+	case "op", "optable":
 		if callee == c.overloadName() { // the overloaded operator itself: vt <op> arg
-			return pre + "func f() {\n\t_ = vt " + c.Op + " " + strings.Join(c.Args, ", ") + "\n}\n"
+			return pre + "func f() {\n\t_ = vt " + c.Op + " (" + strings.Join(c.Args, ", ") + ")\n}\n"
 		}
 		recv = "vt." + callee
+		if strings.HasPrefix(callee, "OpF") {
+			return pre + "func f() {\n\t_ = ovl." + callee + "(" + strings.Join(append([]string{"vt"}, c.Args...), ", ") + ")\n}\n"
+		}
 	default:
 		recv = "ovl." + callee
 	}
@@ -189,7 +217,7 @@ func (c *c06Case) overloadName() string {
 		return "G"
 	case "iface":
 		return "IM"
-	case "op":
+	case "op", "optable":
 		return c06OpNames[c.Op]
 	case "cast":
 		return "C" // ovl.C(args): the cast of the named type C
@@ -253,13 +281,20 @@ func c06Build(c *c06Case, callee string) (res *drive.Result, emittedCallee, emit
 			}
 			var as []string
 			for i, a := range ce.Args {
-				if i == 0 && c.Kind == "op" && c06IsMethodExpr(ce.Fun) {
+				if i == 0 && (c.Kind == "op" || c.Kind == "optable") && (c06IsMethodExpr(ce.Fun) || strings.HasPrefix(emittedCallee, "OpF")) {
 					// an overloaded operator is emitted as the method expression (ovl.T).XGo_Add__k(vt, y):
 					// the first argument is the receiver, i.e. the left operand
 					if types.ExprString(a) != "vt" {
 						as = append(as, "?receiver:"+types.ExprString(a))
 					}
 					continue
+				}
+				for {
+					pe, ok := a.(*ast.ParenExpr)
+					if !ok {
+						break
+					}
+					a = pe.X // redundant parentheses around an argument are not residue
 				}
 				as = append(as, types.ExprString(a))
 			}
@@ -271,7 +306,7 @@ func c06Build(c *c06Case, callee string) (res *drive.Result, emittedCallee, emit
 		return true
 	})
 	for _, o := range rec.objs {
-		if o != nil && strings.Contains(o.Name(), "__") || o != nil && strings.HasPrefix(o.Name(), "Gx") {
+		if o != nil && strings.Contains(o.Name(), "__") || o != nil && strings.HasPrefix(o.Name(), "Gx") || o != nil && strings.HasPrefix(o.Name(), "Op") {
 			recorded = o.Name()
 		}
 	}
@@ -285,18 +320,16 @@ func c06IsMethodExpr(fun ast.Expr) bool {
 		return false
 	}
 	x := sel.X
+	paren := false
 	for {
 		pe, ok := x.(*ast.ParenExpr)
 		if !ok {
 			break
 		}
-		x = pe.X
+		x, paren = pe.X, true
 	}
-	if id, ok := x.(*ast.Ident); ok {
-		return id.Name != "vt"
-	}
-	_, isSel := x.(*ast.SelectorExpr)
-	return isSel
+	_, isSel := x.(*ast.SelectorExpr) // ovl.T
+	return isSel || paren
 }
 
 // c06RHS returns the right-hand side of the single assignment `_ = X` in func f.
@@ -415,7 +448,7 @@ func c06Eval(c *c06Case) (sig, msg string, expected int, feats []string) {
 
 func TestC06(t *testing.T) {
 	r := hx.Start(t, "C06")
-	r.SetRule("generated overload families in a synthetic XGo package: 1-6 (one case in eight: 11-14) candidates as package functions by __k suffix, as an XGoo_ table with explicit names and empty slots, as methods with value / pointer receivers, as methods of an interface type, as overloaded binary operators of a named type (XGo_Add__k ..., written vt + y), or as overloaded type casts of a named type (C_Cast__k, written ovl.C(args); C() without a zero-parameter candidate is the zero-value form and left to C14); parameter lists of 0-3 parameters from 15 types (numeric kinds incl. int8/uint8/float32, named int, any, slices, maps, function types, pointers, error), variadic tails (...int, ...any) and generic candidates ([T any], [T ~int|~float64]); argument lists of 0-3 arguments from typed values, untyped constants (incl. 300, -1, 1<<40, rune, float), nil, function literals, a generic function value, typed constants. Model: candidate k is applicable iff go/types accepts an explicit call of it with the same arguments; expected = least applicable k. Checks: emitted callee, Recorder.Call object and reported result type are candidate expected's; none applicable => rejected; emitted argument expressions equal those of a direct call of the chosen candidate (no residue); the emitted call type-checks. Non-trivial: expected >= 1 (earlier candidates were tried and rejected) or none applicable; distinct by (family, arguments).")
+	r.SetRule("generated overload families in a synthetic XGo package: 1-6 (one case in eight: 11-14) candidates as package functions by __k suffix, as an XGoo_ table with explicit names and empty slots, as methods with value / pointer receivers, as methods of an interface type, as overloaded binary operators of a named type (XGo_Add__k ..., written vt + y; also families listed in an XGoo_T_XGo_Add constant that mix package-level functions and methods), or as overloaded type casts of a named type (C_Cast__k, written ovl.C(args); C() without a zero-parameter candidate is the zero-value form and left to C14); parameter lists of 0-3 parameters from 15 types (numeric kinds incl. int8/uint8/float32, named int, any, slices, maps, function types, pointers, error), variadic tails (...int, ...any) and generic candidates ([T any], [T ~int|~float64]); argument lists of 0-3 arguments from typed values, untyped constants (incl. 300, -1, 1<<40, rune, float), nil, function literals, a generic function value, typed constants. Model: candidate k is applicable iff go/types accepts an explicit call of it with the same arguments; expected = least applicable k. Checks: emitted callee, Recorder.Call object and reported result type are candidate expected's; none applicable => rejected; emitted argument expressions equal those of a direct call of the chosen candidate (no residue); the emitted call type-checks. Non-trivial: expected >= 1 (earlier candidates were tried and rejected) or none applicable; distinct by (family, arguments).")
 	r.Assume("go/types decides applicability of each concrete candidate", "suffix families are contiguous from 0 (documented precondition of XGo packages)")
 	defer r.Done()
 	eval := func(c *c06Case) (string, string) {
@@ -451,8 +484,8 @@ func TestC06(t *testing.T) {
 		}
 	}
 	r.Check(t, "overloads", r.N(4000, 100000), func(t *rapid.T) {
-		c := &c06Case{Kind: pick(t, "kind", []string{"func", "func", "table", "method", "ptrmethod", "iface", "op", "cast"})}
-		if c.Kind == "op" {
+		c := &c06Case{Kind: pick(t, "kind", []string{"func", "func", "table", "method", "ptrmethod", "iface", "op", "cast", "optable"})}
+		if c.Kind == "op" || c.Kind == "optable" {
 			c.Op = pick(t, "op", []string{"+", "-", "*", "/", "%", "&", "|", "<<", "<", ">"})
 		}
 		n := rapid.IntRange(1, 6).Draw(t, "ncand")
@@ -461,12 +494,12 @@ func TestC06(t *testing.T) {
 		}
 		for k := 0; k < n; k++ {
 			np := rapid.IntRange(0, 3).Draw(t, "nparams")
-			if c.Kind == "op" {
+			if c.Kind == "op" || c.Kind == "optable" {
 				np = 1 // a binary operator method takes the right operand
 			}
 			var ps []string
 			tp := ""
-			if k < n-1 && c.Kind != "op" && rapid.IntRange(0, 9).Draw(t, "bigparam") == 0 {
+			if k < n-1 && c.Kind != "op" && c.Kind != "optable" && rapid.IntRange(0, 9).Draw(t, "bigparam") == 0 {
 				// A candidate that is tried, rewrites an untyped constant argument for its big-number
 				// parameter, and then fails on its Never parameter: nothing of it may remain.
 				ps = append(ps, "p0 builtin.XGo_bigint")
@@ -485,7 +518,7 @@ func TestC06(t *testing.T) {
 				if g && i == 0 {
 					ty = "T"
 				}
-				if i == np-1 && c.Kind != "op" && rapid.IntRange(0, 4).Draw(t, "variadic") == 0 {
+				if i == np-1 && c.Kind != "op" && c.Kind != "optable" && rapid.IntRange(0, 4).Draw(t, "variadic") == 0 {
 					ty = "..." + pick(t, "vtype", []string{"int", "any", "string", "float64"})
 				}
 				ps = append(ps, fmt.Sprintf("p%d %s", i, ty))
@@ -516,7 +549,7 @@ func TestC06(t *testing.T) {
 			}
 		} else {
 			na := rapid.IntRange(0, 3).Draw(t, "nargs")
-			if c.Kind == "op" {
+			if c.Kind == "op" || c.Kind == "optable" {
 				na = 1
 			}
 			for i := 0; i < na; i++ {
